@@ -59,7 +59,11 @@ func baseMessages(n int) []baseMsg {
 	add(mk(framings[0], []*node{str("58")}), h, []*pop{sv("\x80\xfe\xff\xc3\xa9")}, nil) // high bytes and a valid UTF-8 pair
 	// then the enumerated family, spread out over shapes, populations and value routes
 	step := 0
-	templates(5, func(idx int, t *tmpl) {
+	budget, stride := 5, 5
+	if n > 1000 {
+		budget, stride = 6, 2
+	}
+	templates(budget, func(idx int, t *tmpl) {
 		if len(out) >= n {
 			return
 		}
@@ -67,7 +71,7 @@ func baseMessages(n int) []baseMsg {
 		hps := pops(t.Hdr, 's', 2)
 		for k := len(ps) - 1; k >= 0; k -= 1 + len(ps)/3 {
 			step++
-			if step%5 != 0 || len(out) >= n {
+			if step%stride != 0 || len(out) >= n {
 				continue
 			}
 			add(t, hps[len(hps)-1], ps[k], emptyPops(t.Trl))
